@@ -27,6 +27,10 @@ type Case struct {
 	WillRetain bool   `json:"will_retain,omitempty"`
 	Pre        []int  `json:"pre,omitempty"` // QoS of messages the dying client publishes (complete handshakes) first
 	Clean      bool   `json:"clean,omitempty"`
+	// Saturated: one more online observer (persistent session, queue 3, window
+	// 1) that has stopped acknowledging, so that its window and queue are full
+	// when the will is due; it starts acknowledging again afterwards.
+	Saturated bool `json:"saturated,omitempty"`
 }
 
 type verdict struct{ sig, msg string }
@@ -123,7 +127,7 @@ func (s *scen) barrier(p *peer.Peer, from int) bool {
 func wills(p *peer.Peer, from int) []*packet.Publish {
 	var out []*packet.Publish
 	for _, g := range p.Publishes(from) {
-		if g.Message.Topic == willTopic {
+		if g.Message.Topic == willTopic && string(g.Message.Payload) == willTag {
 			out = append(out, g)
 		}
 	}
@@ -157,6 +161,10 @@ func runCase(c *Case) (*verdict, bool) {
 		if c.Cause == "token-timeout" {
 			m.ClientTokenTimeout = 40 * time.Millisecond * ev.Slow()
 		}
+		if c.Saturated {
+			m.SessionQueueSize = 3
+			m.ClientInflightMessages = 1
+		}
 	})
 	defer s.b.Shutdown()
 	b := s.b
@@ -182,6 +190,71 @@ func runCase(c *Case) (*verdict, bool) {
 		return s.fail("harness/offline-observer", "offline observer did not terminate"), false
 	}
 
+	var sat *peer.Peer
+	var satConn *memconn.Conn
+	satQuit, satDone := make(chan struct{}), make(chan struct{})
+	if c.Saturated {
+		sat, satConn = b.Dial("sat")
+		sat.AutoAck = false
+		if _, err := sat.Connect(s.connectPkt("sat", false, false)); err != nil {
+			return s.fail("harness/saturated-observer", "%v", err), false
+		}
+		if _, err := sat.Subscribe([]packet.Subscription{{Topic: willTopic, QOS: 2}, {Topic: "c12/fill", QOS: 1}, {Topic: peer.MarkerTopic, QOS: 1}}); err != nil {
+			return s.fail("harness/saturated-observer", "%v", err), false
+		}
+		for i := 0; i < 4; i++ { // one delivery in flight (window 1) + three queued (queue 3)
+			if err := s.pub.Publish("c12/fill", []byte(fmt.Sprintf("filler-%d", i)), 1, false); err != nil {
+				return s.fail("harness/saturated-observer", "%v", err), false
+			}
+		}
+		if sat.WaitFor(0, func(g packet.Generic) bool { return g.Type() == packet.PUBLISH }, ev.Ceiling()) < 0 {
+			return s.fail("harness/saturated-observer", "filler not delivered"), false
+		}
+		defer func() {
+			select {
+			case <-satQuit:
+			default:
+				close(satQuit)
+			}
+			<-satDone
+		}()
+		go func() { // resumes acknowledging once the will is being handed over (or shortly after the cause)
+			defer close(satDone)
+			start := time.Now()
+			for {
+				seen := false
+				for _, call := range b.Rec.Calls() {
+					if call.Hook == "Publish" && call.Tag == willTag {
+						seen = true
+					}
+				}
+				select {
+				case <-satQuit:
+					return
+				default:
+				}
+				if seen || time.Since(start) > 60*time.Millisecond*ev.Slow() {
+					break
+				}
+				time.Sleep(200 * time.Microsecond)
+			}
+			time.Sleep(2 * time.Millisecond) // let the hand-over reach the full queue
+			for _, g := range sat.Inbox {
+				if p, ok := g.(*packet.Publish); ok && p.Message.QOS == 1 {
+					_ = sat.Send(&packet.Puback{ID: p.ID})
+				}
+			}
+			sat.AutoAck = true
+			for !sat.EOF {
+				select {
+				case <-satQuit:
+					return
+				default:
+				}
+				sat.PumpWait(time.Millisecond)
+			}
+		}()
+	}
 	clean := c.Clean
 	if c.State == "resumed" {
 		clean = false
@@ -447,6 +520,30 @@ func runCase(c *Case) (*verdict, bool) {
 			}
 		}
 	}
+	if c.Saturated {
+		// queue 3 / window 1 apply to every session here: observers that are no
+		// longer read must leave, or the markers of later barriers pile up behind them
+		s.on.Drop()
+		s.onp.Drop()
+		// the markers are published while the observer is still being drained by
+		// its goroutine (otherwise they would wait behind its small queue), then
+		// this goroutine takes the observer over and reads up to the markers
+		s.mark++
+		tag := fmt.Sprintf("b%d", s.mark)
+		if s.pub.Markers(tag) != nil {
+			return s.fail("harness/barrier", "barrier markers could not be published"), true
+		}
+		close(satQuit)
+		<-satDone
+		if !sat.AwaitMarkers(0, tag) {
+			return s.fail("harness/barrier", "barrier markers did not reach the observer that had been saturated"), true
+		}
+		if got := wills(sat, 0); len(got) != expected {
+			return s.fail("will/saturated-observer-count", "an online subscriber whose window and queue were full when the will was due (and who acknowledged again afterwards) received the will %d times, expected %d", len(got), expected), true
+		}
+		sat.Drop() // nobody reads this connection any more: it must not hold up the barriers that follow
+		b.WaitClosed(satConn)
+	}
 	// offline persistent observer
 	off2, _ := b.Dial("off")
 	if ack, err := off2.Connect(s.connectPkt("off", false, false)); err != nil || !ack.SessionPresent {
@@ -456,6 +553,9 @@ func runCase(c *Case) (*verdict, bool) {
 		return s.fail("harness/barrier", "barrier markers did not reach the resumed observer"), true
 	}
 	gotOff := wills(off2, 0)
+	if c.Saturated {
+		off2.Drop()
+	}
 	if c.WillQoS > 0 || expected == 0 {
 		if len(gotOff) != expected {
 			return s.fail("will/offline-observer-count", "the persistent observer that was offline received the will %d times after reconnecting, expected %d", len(gotOff), expected), true
@@ -513,7 +613,7 @@ func nontrivial(c *Case) bool {
 
 func TestC12(t *testing.T) {
 	run := ev.Start("C12", "fault_enumeration")
-	run.Rule("termination cause {DISCONNECT, peer EOF, carrier failure at Receive / at Send (before/after), malformed frame (4 kinds), second CONNECT, server-only packet (4 kinds), keep-alive expiry, takeover by the same id (clean/unclean), MemoryBackend.Close, token timeout, backend hook error (Subscribe, Unsubscribe, Publish QoS 1, Publish QoS 0), rejected credentials, Authenticate error, non-CONNECT first packet (4 kinds), CONNACK lost (before/after), Setup error, Restore error, send failure inside the resend phase (4 positions)} x protocol state {idle, mid inbound QoS 2, two outbound deliveries unacknowledged, processor blocked on a publish token, resumed session with retransmissions} x will QoS 0-2 x retain: the valid part of this matrix is ENUMERATED completely, then sampled again with generated surrounding traffic. Oracle at the backend boundary: number of Backend.Publish calls carrying the will == 1 iff (Setup succeeded for the connection and no DISCONNECT was received), else 0, with the supplied topic/payload/QoS/retain; plus two online observers (clean and persistent session), a persistent observer that was offline, and a subscriber arriving later (retained replay). non-trivial = cause other than EOF/DISCONNECT or state other than idle; distinct by case")
+	run.Rule("termination cause {DISCONNECT, peer EOF, carrier failure at Receive / at Send (before/after), malformed frame (4 kinds), second CONNECT, server-only packet (4 kinds), keep-alive expiry, takeover by the same id (clean/unclean), MemoryBackend.Close, token timeout, backend hook error (Subscribe, Unsubscribe, Publish QoS 1, Publish QoS 0), rejected credentials, Authenticate error, non-CONNECT first packet (4 kinds), CONNACK lost (before/after), Setup error, Restore error, send failure inside the resend phase (4 positions)} x protocol state {idle, mid inbound QoS 2, two outbound deliveries unacknowledged, processor blocked on a publish token, resumed session with retransmissions} x will QoS 0-2 x retain: the valid part of this matrix is ENUMERATED completely, then sampled again with generated surrounding traffic. Oracle at the backend boundary: number of Backend.Publish calls carrying the will == 1 iff (Setup succeeded for the connection and no DISCONNECT was received), else 0, with the supplied topic/payload/QoS/retain; plus two online observers (clean and persistent session), optionally an online observer whose window and queue are full when the will is due, a persistent observer that was offline, and a subscriber arriving later (retained replay). non-trivial = cause other than EOF/DISCONNECT or state other than idle; distinct by case")
 	run.Assume("'accepted' is read as: the backend's Setup returned a session for the connection (the broker's own acceptance point; the will is armed from then on even if the CONNACK write fails)", "keep-alive expiry uses ClientMaximumKeepAlive = 60 ms (read timeout 90 ms); if it expires while the harness is still preparing the protocol state the case is judged from there, token timeout 40 ms")
 	defer run.Finish(t)
 
@@ -558,6 +658,19 @@ func TestC12(t *testing.T) {
 			}
 		}
 	}
+	for _, cause := range []string{"eof", "disconnect", "malformed", "takeover", "hook-error", "send-fault"} {
+		for _, q := range []int{0, 1, 2} {
+			idx++
+			if idx%shards != shard {
+				continue
+			}
+			n++
+			c := &Case{Cause: cause, State: "idle", WillQoS: q, WillRetain: q == 1, Saturated: true, Clean: q == 2}
+			if v := exec(c); v != nil {
+				run.Violation(v.sig+":"+sigKey(c), v.msg, c)
+			}
+		}
+	}
 	run.Exhaustive(fmt.Sprintf("the valid (cause, variant, state, will QoS, retain) matrix: %d combinations (%d in this shard)", idx, n))
 	run.Rapid(t, "traffic", ev.Pick(150, 20000), func(rt *rapid.T) {
 		var c *Case
@@ -571,6 +684,9 @@ func TestC12(t *testing.T) {
 		c.WillQoS = rapid.IntRange(0, 2).Draw(rt, "wq")
 		c.WillRetain = rapid.Bool().Draw(rt, "wr")
 		c.Clean = rapid.Bool().Draw(rt, "clean")
+		if c.Cause != "backend-close" && c.State != "token-blocked" && c.State != "out-unacked" && c.State != "resumed" {
+			c.Saturated = rapid.IntRange(0, 3).Draw(rt, "saturated") == 0
+		}
 		if !connectCauses[c.Cause] && c.State != "token-blocked" {
 			c.Pre = rapid.SliceOfN(rapid.IntRange(0, 2), 0, 4).Draw(rt, "pre")
 		}
